@@ -222,6 +222,18 @@ func backSlice(v ssa.Value) map[ssa.Value]bool {
 						visit(y.Value)
 					}
 				case ssa.CallInstruction:
+					// a module callee that only reads the object (a membership test on a set) puts nothing into it
+					if g := y.Common().StaticCallee(); g != nil && inModule(g) && g.Blocks != nil {
+						fills := false
+						for i, arg := range y.Common().Args {
+							if arg == addr && (i >= len(g.Params) || mayFill(g.Params[i], 0)) {
+								fills = true
+							}
+						}
+						if !fills {
+							continue
+						}
+					}
 					for _, arg := range y.Common().Args {
 						visit(arg)
 					}
@@ -235,6 +247,52 @@ func backSlice(v ssa.Value) map[ssa.Value]bool {
 	}
 	visit(v)
 	return seen
+}
+
+// mayFill: something may be written into the object v refers to (map update, store through a derived address,
+// append / copy / delete / clear, or handing it to a function that may do so).
+func mayFill(v ssa.Value, depth int) bool {
+	if v.Referrers() == nil {
+		return false
+	}
+	if depth > 3 {
+		return true
+	}
+	for _, r := range *v.Referrers() {
+		switch y := r.(type) {
+		case *ssa.MapUpdate:
+			if y.Map == v {
+				return true
+			}
+		case *ssa.Store:
+			if y.Addr == v {
+				return true
+			}
+		case *ssa.FieldAddr, *ssa.IndexAddr, *ssa.ChangeType, *ssa.MakeInterface, *ssa.Slice, *ssa.Phi:
+			if mayFill(y.(ssa.Value), depth+1) {
+				return true
+			}
+		case ssa.CallInstruction:
+			cm := y.Common()
+			if b, isB := cm.Value.(*ssa.Builtin); isB {
+				switch b.Name() {
+				case "len", "cap":
+					continue
+				}
+				return true
+			}
+			g := cm.StaticCallee()
+			if g == nil || !inModule(g) || g.Blocks == nil {
+				return true
+			}
+			for i, a := range cm.Args {
+				if a == v && (i >= len(g.Params) || mayFill(g.Params[i], depth+1)) {
+					return true
+				}
+			}
+		}
+	}
+	return false
 }
 
 func sliceHas(sl map[ssa.Value]bool, pred func(v ssa.Value) bool) bool {
@@ -346,6 +404,46 @@ func (c *Ctx) isMembershipFn(f *ssa.Function) (bool, []string) {
 	}}
 	ok, w, _ := c.Guard(f, nil, chk, nil)
 	return ok, w
+}
+
+// isMapMembershipFn: bool function f(set, key) (set may be the receiver) that returns exactly "key is in set": the ok
+// of set[key], or the value of a bool-valued set[key]. Returns the index of the set parameter.
+func (c *Ctx) isMapMembershipFn(f *ssa.Function) (int, bool) {
+	if f == nil || f.Blocks == nil || len(f.Params) != 2 || !boolResult(f) || !inModule(f) {
+		return 0, false
+	}
+	setIdx := -1
+	for _, r := range returnsOf(f) {
+		if len(r.Results) != 1 {
+			return 0, false
+		}
+		var lk *ssa.Lookup
+		switch y := returnedValue(r, 0).(type) {
+		case *ssa.Extract:
+			if l, isLk := y.Tuple.(*ssa.Lookup); isLk && y.Index == 1 {
+				lk = l
+			}
+		case *ssa.Lookup:
+			if mt, isM := y.X.Type().Underlying().(*types.Map); isM && !y.CommaOk {
+				if bt, isB := mt.Elem().Underlying().(*types.Basic); isB && bt.Kind() == types.Bool {
+					lk = y
+				}
+			}
+		}
+		if lk == nil {
+			return 0, false
+		}
+		sp, isSP := stripConv(lk.X).(*ssa.Parameter)
+		kp, isKP := lk.Index.(*ssa.Parameter)
+		if !isSP || !isKP || sp == kp {
+			return 0, false
+		}
+		if setIdx >= 0 && setIdx != paramIndex(sp) {
+			return 0, false
+		}
+		setIdx = paramIndex(sp)
+	}
+	return setIdx, setIdx >= 0
 }
 
 func isRefLike(t types.Type) bool {
